@@ -73,3 +73,31 @@ def float_tensor(nprng, shape, dyn=1.0):
     if nprng.random() < 0.2:
         x = x + 40.0 * dyn
     return x
+
+
+# ---------------------------------------------------------------------------
+# the SCALE covering set (round 11 of the seeded changes): sizes above every blocking / tiling / chunking threshold an
+# implementation may reasonably pick ("more than 64 slices", "more than 256 / 512 rows", "more than 4096 samples") and
+# not multiples of them.  Oracles run these against their references; the exact Lean correspondence stays at small sizes.
+# ---------------------------------------------------------------------------
+
+def scale_shapes_2d(tier):
+    """(N, C, H, W): tall, wide, big in both directions, many channels (not a multiple of 64), many slices with N >= 2.
+    Thresholds are usually powers of two, and what goes wrong above them goes wrong in a narrow window (the last block
+    thinner than a filter, a halo one sample short): sides just below / at / just above 256, 512, 1024, and not only there."""
+    tall = [257, 300, 511, 513, 520, 1031]
+    wide = [257, 511, 516]
+    s = [(1, 1, h, 6) for h in tall] + [(1, 1, 6, w) for w in wide]
+    s += [(1, 1, 264, 272), (1, 1, 400, 390), (1, 70, 8, 6), (3, 23, 8, 8), (2, 65, 4, 6)]
+    if tier != 'quick':
+        s += [(1, 1, h, 5) for h in (255, 256, 258, 384, 385, 507, 509, 510, 512, 600, 768, 1000, 1023, 1024, 1025, 2049)]
+        s += [(1, 1, 7, w) for w in (256, 300, 509, 512, 513, 1023, 1025)]
+        s += [(1, 130, 6, 4), (1, 2, 600, 24), (1, 1, 520, 520), (5, 13, 12, 10), (1, 96, 8, 8), (2, 100, 8, 4)]
+    return s
+
+
+def scale_shapes_1d(tier):
+    s = [(1, 1, n) for n in (257, 300, 511, 513, 4100, 5003)] + [(1, 70, 33), (3, 23, 40)]
+    if tier != 'quick':
+        s += [(1, 1, n) for n in (255, 256, 509, 512, 1023, 1025, 4095, 4097, 9000, 65537, 70001)] + [(2, 65, 18), (1, 130, 16), (1, 96, 24)]
+    return s
